@@ -100,6 +100,9 @@ class Connection(ABC, TaskManager):
         """Close the connection."""
         self.cancel_tasks()
         await self.protocol.shutdown()
+        # A connection loss handled while the protocol was shutting down
+        # may have scheduled another reconnect attempt in the meantime.
+        self.cancel_tasks()
 
     @property
     def protocol(self) -> Protocol:
